@@ -33,19 +33,19 @@ type dbc struct { // x - y >= c
 }
 
 type boundsCtx struct {
-	f     *Func
-	g     *Graph
-	info  *types.Info
-	body  *ast.BlockStmt
-	sum   map[string]calleeSummary
-	roots map[string][]ast.Node // canonical var term -> nodes that modify it
-	defs  map[types.Object][]ast.Node
-	entry []dbc // constraints holding at every call of this closure (inherited)
+	f       *Func
+	g       *Graph
+	info    *types.Info
+	body    *ast.BlockStmt
+	sum     map[string]calleeSummary
+	roots   map[string][]ast.Node // canonical var term -> nodes that modify it
+	defs    map[types.Object][]ast.Node
+	entry   []dbc       // constraints holding at every call of this closure (inherited)
 	sums2   [][3]string // t == a + b definitions valid at the current use
 	parents map[ast.Node]ast.Node
 	depth   int
 	full    *boundsCtx // context of the enclosing function body (for captured variables)
-	minSz func(recv types.Type) (int64, bool)
+	minSz   func(recv types.Type) (int64, bool)
 }
 
 // calleeSummary gives facts about results of a call `a, b := F(args)`.
@@ -1224,9 +1224,9 @@ var lenRequiringCalls = map[string]int64{
 // BoundsOpts configures the prover for one body.
 type BoundsOpts struct {
 	Sums    map[string]calleeSummary
-	Entry   []dbc                                  // facts holding whenever the body (a closure) is entered
-	MinSize func(recv types.Type) (int64, bool)    // minimal input length for a successful ReadFrom on the receiver type
-	NoUpper bool                                   // AllocCheck: require only size >= 0
+	Entry   []dbc                               // facts holding whenever the body (a closure) is entered
+	MinSize func(recv types.Type) (int64, bool) // minimal input length for a successful ReadFrom on the receiver type
+	NoUpper bool                                // AllocCheck: require only size >= 0
 }
 
 func newBoundsCtx(f *Func, body *ast.BlockStmt, g *Graph, o BoundsOpts) *boundsCtx {
